@@ -86,3 +86,44 @@ class Outcome:
 
 class HarnessError(Exception):
     """The verification machinery itself is broken (exit 2, never a violation)."""
+
+
+class LibraryFault(Exception):
+    """Raised deep inside a harness when the code under test does something that makes the case impossible to go
+    on with (not a harness bug): the runner turns it into a failure of the given clause."""
+
+    def __init__(self, clause, site, detail=None):
+        Exception.__init__(self, "%s@%s" % (clause, site))
+        self.clause, self.site, self.detail = clause, site, detail
+
+
+def guarded(execute):
+    """Wrap an execute(case) so that a LibraryFault becomes an Outcome with that failure."""
+    def run(case):
+        try:
+            return execute(case)
+        except LibraryFault as lf:
+            out = Outcome()
+            out.fail(lf.clause, lf.site, lf.detail or {})
+            out.nontrivial = True
+            return out
+        except HarnessError:
+            raise
+        except Exception as e:
+            # an exception that escapes from inside the library under test (innermost frame in the staged aiokafka
+            # package) through a harness that did not expect it is the library's doing, not a harness error
+            import os
+            import traceback
+            tb = traceback.extract_tb(e.__traceback__)
+            stage = os.environ.get("VERIF_STAGE") or ""
+            inner = tb[-1] if tb else None
+            if inner is not None and stage and os.path.abspath(inner.filename).startswith(os.path.abspath(stage) + os.sep):
+                out = Outcome()
+                rel = os.path.relpath(inner.filename, stage)
+                out.fail("unexpected_exception", "%s:%s:%s" % (type(e).__name__, rel, inner.name),
+                         {"error": repr(e)[:300], "where": ["%s:%d %s" % (os.path.basename(f.filename), f.lineno, f.name) for f in tb[-5:]]})
+                out.nontrivial = True
+                return out
+            raise
+    run.__name__ = getattr(execute, "__name__", "execute")
+    return run
